@@ -49,6 +49,14 @@ def run(ctx):
         # the drop report is made from a noexcept function: the notifier must be callable when it is called (= C10.R8)
         from rules import c10
         c10.r8_notifier_callable(Renamed(ctx, "C10.R8", "C08.R10"), facts, cfg)
+        # a context leaves the backend's view only through the clean-up that reports its drop count first: the cache reload neither skips
+        # nor removes contexts on its own (= C20.R5)
+        from rules import c20
+        c20.r5(Renamed(ctx, "C20.R5", "C08.R12"), facts, cfg)
+        if cfg == "A":
+            # 'delivered intact' after a drop: the per-thread size cache is emptied at the start of every size pass, so the lengths cached
+            # for a statement that was then refused are not used to encode the next one (= C04.R2)
+            c04.cache_rules(Renamed(ctx, "C04.R2", "C08.R13"), ctx.facts("effects.cpp", "A", ()))
         # statements a dropping queue has accepted are delivered even when their thread has exited: the context is removed only when
         # its queue and its transit buffer are both empty, whatever the queue type (= C03.R5)
         from rules import c03
